@@ -30,7 +30,7 @@ ASSUMPTIONS = [
 ]
 BUDGET = {"quick": {"examples": 2400}, "thorough": {"examples": 250000, "deadline_s": 1500}}
 
-CFG = gen.cfg(max_syms=12, p_set=22, p_wset=22, p_set_symval=50, p_select=25, p_imply=22, p_range_sym=35, p_choice=14, p_menu=18)
+CFG = gen.cfg(max_syms=12, p_set=22, p_wset=22, p_set_symval=50, set_symval_numeric=True, p_select=25, p_imply=22, p_range_sym=35, p_choice=14, p_menu=18, p_bare=8)
 EDGE_KINDS = (
     "depends",
     "prompt-cond",
